@@ -65,4 +65,151 @@ theorem gen_forEach_stops (s : PStore) (cap : Int) (p : Int → Rat → Bool) (f
   obtain ⟨h1, h2⟩ := forEach_pred s cap p fuel hf
   exact ⟨⟨_, h1⟩, h2⟩
 
+/-! ### histories on the regenerated code -/
+
+/-- an operation of a store history -/
+inductive GOp where
+  | add (i : Int) (w : Rat)
+  | clear
+  | reweight (w : Rat)
+deriving Repr
+
+/-- admissible: int32 index, non-negative weight; a positive reweighting factor -/
+def GOp.ok : GOp → Prop
+  | .add i w => Idx32 i ∧ 0 ≤ w
+  | .clear => True
+  | .reweight w => 0 < w
+
+/-- one operation on the regenerated code (`Reweight` also returns Go's error value, which is dropped here) -/
+def gstep (fuel : Nat) (grow : Int → Int → Int) (g : GP) : GOp → Res GP
+  | .add i w => BufferedPaginatedStore.AddWithCount fuel grow g i w
+  | .clear => BufferedPaginatedStore.Clear fuel g
+  | .reweight w => (BufferedPaginatedStore.Reweight fuel grow g w).bind (fun r => .ok r.1)
+
+/-- a history on the regenerated code -/
+def grun (fuel : Nat) (grow : Int → Int → Int) : GP → List GOp → Res GP
+  | g, [] => .ok g
+  | g, op :: ops => (gstep fuel grow g op).bind (fun g' => grun fuel grow g' ops)
+
+/-- the same operation on the exact map -/
+def cstep (c : Content) : GOp → Content
+  | .add i w => c.add i w
+  | .clear => []
+  | .reweight w => if w = 1 then c else c.scale w
+
+def crun (c : Content) (ops : List GOp) : Content := ops.foldl cstep c
+
+/-- from any store with the invariant: every admissible history runs to completion on the regenerated code for every
+    capacity, growth policy and sufficiently large fuel, and ends in the image of a model store with the invariant
+    that holds the spec content -/
+theorem gen_history_from (ops : List GOp) (hops : ∀ op ∈ ops, op.ok) :
+    ∀ (s : PStore), Inv s → ∃ F : Nat, ∀ (cap : Int) (grow : Int → Int → Int) (fuel : Nat), F ≤ fuel →
+      ∃ (s' : PStore) (cap' : Int), grun fuel grow (toGen s cap) ops = .ok (toGen s' cap') ∧ Inv s' ∧
+        content s' = crun (content s) ops := by
+  induction ops with
+  | nil => intro s h; exact ⟨0, fun cap _ _ _ => ⟨s, cap, rfl, h, rfl⟩⟩
+  | cons op ops ih =>
+    intro s h
+    have hop : op.ok := hops op (List.mem_cons_self ..)
+    have hrest : ∀ op' ∈ ops, op'.ok := fun op' h' => hops op' (List.mem_cons_of_mem _ h')
+    cases op with
+    | add i w =>
+      obtain ⟨hi, hw⟩ := hop
+      obtain ⟨st, ht1, ht2, ht3⟩ := C04Pag.add_content s h i hi w hw true
+      obtain ⟨sf, hf1, hf2, hf3⟩ := C04Pag.add_content s h i hi w hw false
+      obtain ⟨Ft, hFt⟩ := ih hrest st ht2
+      obtain ⟨Ff, hFf⟩ := ih hrest sf hf2
+      refine ⟨max (addFuel s i) (max Ft Ff), fun cap grow fuel hfu => ?_⟩
+      have hspec := addWithCount_spec page_spec s cap grow i w fuel (by omega)
+      cases hb : decide ((s.buffer.length : Int) = cap) with
+      | true =>
+        rw [hb, ht1] at hspec
+        obtain ⟨g', hg', cap1, rfl⟩ := hspec
+        obtain ⟨s', cap', hr, hinv, hc⟩ := hFt cap1 grow fuel (by omega)
+        refine ⟨s', cap', ?_, hinv, ?_⟩
+        · show (gstep fuel grow (toGen s cap) (.add i w)).bind _ = _
+          simp only [gstep, hg', Res.bind_ok]; exact hr
+        · rw [hc, ht3]; rfl
+      | false =>
+        rw [hb, hf1] at hspec
+        obtain ⟨g', hg', cap1, rfl⟩ := hspec
+        obtain ⟨s', cap', hr, hinv, hc⟩ := hFf cap1 grow fuel (by omega)
+        refine ⟨s', cap', ?_, hinv, ?_⟩
+        · show (gstep fuel grow (toGen s cap) (.add i w)).bind _ = _
+          simp only [gstep, hg', Res.bind_ok]; exact hr
+        · rw [hc, hf3]; rfl
+    | clear =>
+      obtain ⟨hc1, hc2⟩ := C04Pag.clear_content s h
+      obtain ⟨F, hF⟩ := ih hrest s.clear hc1
+      refine ⟨F, fun cap grow fuel hfu => ?_⟩
+      obtain ⟨s', cap', hr, hinv, hc⟩ := hF cap grow fuel hfu
+      refine ⟨s', cap', ?_, hinv, ?_⟩
+      · show (gstep fuel grow (toGen s cap) .clear).bind _ = _
+        simp only [gstep, GenPag.clear_spec, Res.bind_ok]; exact hr
+      · rw [hc, hc2]; rfl
+    | reweight w =>
+      have hw : 0 < w := hop
+      by_cases h1 : w = 1
+      · subst h1
+        obtain ⟨F, hF⟩ := ih hrest s h
+        refine ⟨F, fun cap grow fuel hfu => ?_⟩
+        obtain ⟨s', cap', hr, hinv, hc⟩ := hF cap grow fuel hfu
+        refine ⟨s', cap', ?_, hinv, ?_⟩
+        · show (gstep fuel grow (toGen s cap) (.reweight 1)).bind _ = _
+          simp only [gstep, reweight_one, Res.bind_ok]; exact hr
+        · rw [hc]; simp [crun, cstep]
+      · obtain ⟨sr, hr1, hr2, hr3⟩ := C04Pag.reweight_content s h w hw
+        obtain ⟨F, hF⟩ := ih hrest sr hr2
+        refine ⟨max (reweightFuel s w) F, fun cap grow fuel hfu => ?_⟩
+        have hspec := reweight_spec page_spec s cap grow w fuel hw h1 (by omega)
+        rw [hr1] at hspec
+        obtain ⟨s', cap', hr, hinv, hc⟩ := hF cap grow fuel (by omega)
+        refine ⟨s', cap', ?_, hinv, ?_⟩
+        · show (gstep fuel grow (toGen s cap) (.reweight w)).bind _ = _
+          simp only [gstep, hspec, GenDense.toRes_some, Res.bind_ok]; exact hr
+        · rw [hc, hr3]; simp [crun, cstep, h1]
+
+/-- C04 for the regenerated paginated store: for every admissible history there is a fuel bound from which on,
+    whatever the growth policy of the runtime, the regenerated code started from `NewBufferedPaginatedStore` runs to
+    completion and every observer of the result is the observer of the exact map built by the same operations -/
+theorem gen_history_observers (ops : List GOp) (hops : ∀ op ∈ ops, op.ok) :
+    ∃ F : Nat, ∀ (grow : Int → Int → Int) (fuel : Nat), F ≤ fuel →
+      ∃ g : GP, grun fuel grow NewBufferedPaginatedStore ops = .ok g ∧
+        ∃ F' : Nat, ∀ fuel', F' ≤ fuel' →
+          BufferedPaginatedStore.IsEmpty fuel' g = .ok (crun [] ops).isEmpty ∧
+          BufferedPaginatedStore.TotalCount fuel' g = .ok (crun [] ops).total ∧
+          BufferedPaginatedStore.MinIndex fuel' g
+            = .ok (match (crun [] ops).minIndex? with
+                   | some m => (m, GoErr.nil) | none => ((0 : Int), errUndefinedMinIndex)) ∧
+          BufferedPaginatedStore.MaxIndex fuel' g
+            = .ok (match (crun [] ops).maxIndex? with
+                   | some m => (m, GoErr.nil) | none => ((0 : Int), errUndefinedMaxIndex)) ∧
+          (∀ r : Rat, ∃ g', BufferedPaginatedStore.KeyAtRank fuel' g r = .ok (g', (crun [] ops).keyAtRank r)) ∧
+          (∃ g', BufferedPaginatedStore.ForEach fuel' g (fun _ _ => .ok false) = .ok g') := by
+  have hnew : Inv PStore.new := PStore.inv_new
+  have hc0 : content PStore.new = [] := (PStore.content_eq_nil_iff _ hnew).2 PStore.wt_new
+  obtain ⟨F, hF⟩ := gen_history_from ops hops PStore.new hnew
+  refine ⟨F, fun grow fuel hfu => ?_⟩
+  obtain ⟨s', cap', hr, hinv, hc⟩ := hF 4 grow fuel hfu
+  rw [← new_spec] at hr
+  refine ⟨toGen s' cap', hr, obsFuel s', fun fuel' hf' => ?_⟩
+  obtain ⟨o1, o2, o3, o4, o5, o6, _⟩ := gen_observers s' hinv cap' fuel' hf'
+  rw [hc, hc0] at o1 o2 o3 o4
+  refine ⟨o1, o2, o3, o4, ?_, o6⟩
+  intro r
+  obtain ⟨g', hg'⟩ := o5 r
+  exact ⟨g', by rw [hg', hc, hc0]⟩
+
+/-- same-kind merge on the regenerated code: for any two stores with the invariant (any capacities, any growth policy,
+    fuel from `mergeFuel` on) `MergeWith` never panics and the receiver ends holding the merged content; the
+    argument is a value and is unchanged -/
+theorem gen_merge (s o : PStore) (hs : Inv s) (ho : Inv o) (cap cap' : Int) (grow : Int → Int → Int)
+    (mf : GP → GP → Res GP) (fuel : Nat) (hf : mergeFuel addFuel s o ≤ fuel) :
+    ∃ (g' : GP) (s' : PStore),
+      BufferedPaginatedStore.MergeWith fuel grow mf (toGen s cap) (toGen o cap') = .ok g' ∧ Rel g' s' ∧ Inv s' ∧
+      content s' = (content s).merge (content o) := by
+  obtain ⟨g', s', h1, h2, h3, h4, _⟩ :=
+    mergeWith_same_content page_spec (add_spec page_spec) grow mf s o cap cap' fuel hs ho hf
+  exact ⟨g', s', h1, h2, h3, h4⟩
+
 end DDS.Props.C04GenPag
